@@ -294,6 +294,10 @@ def positive_length_rule(ctx: Ctx, rid: str):
 
 
 def run_extra(ctx: Ctx):
+    # ---------------------------------------------------------------- R06.13 the slot of a bound is its floor: a bound in the second half of a slot must
+    # not be taken for the next slot (the in-slot offset is then dropped and the milestone / start moves to the slot boundary) (= C17 R17.2)
+    from .c17 import slot_floor_rule
+    slot_floor_rule(ctx, "R06.13")
     # ---------------------------------------------------------------- R06.12 what is left of a slot takes the head set aside for a mid-slot
     # start into account on every path: otherwise the task books seconds that lie before its reported start (= C01 R01.2)
     from .c01 import remaining_seconds_rule
